@@ -284,7 +284,8 @@ EvReset ==
 
 (* a block is valid for the surviving history if its deposit counts continue it without a gap *)
 ValidBlock(e) ==
-  IF kind = "bridge"
+  IF e.num <= LastNum THEN FALSE      \* a block number that is already stored (e.g. after a fault that came too late to fail the call)
+  ELSE IF kind = "bridge"
   THEN LET n == Len(LeafRecs(applied))
            ls == LeafRecsOfEvs(e.evs, e.num, 0)
        IN \A i \in DOMAIN ls : ls[i].dc = n + i - 1
